@@ -35,6 +35,12 @@
    size / emptiness / iteration order                        -> C02_obs_refines
    equality comparison (order- and value-sensitive)          -> C02_eq_refines
    append / prepend / positional insert, returned iterator   -> C02_insert_refines, C02_insert_new_key
+   the iterator returned by insert and the references returned
+   by append / prepend (taken from it: insert(..).item->value)
+   designate the entry find(key) reaches after the call      -> C02_insert_returns_found_entry (the function),
+                                                                C02_insert_ops_return_found_entry (the three operations);
+                                                                that the C++ reference is the ADDRESS of the stored
+                                                                element is checked by the harness (token REF!)
    remove by iterator (returned iterator), removeFront/Back  -> C02_remove_at_refines, C02_iter_at_refines
    remove by key                                             -> C02_remove_key_refines
    clear                                                     -> C02_clear_refines
@@ -207,6 +213,39 @@ Theorem C02_insert_present_set_pool_untouched :
   insert keqb hash kd t pos k v = (t, Some (r, k, v0)).
 Proof. exact insert_present_untouched. Qed.
 Print Assumptions C02_insert_present_set_pool_untouched.
+
+(* The iterator insert() returns designates the entry that find(key) reaches in the table after the call (same rank,
+   the key, the value stored at that rank in the sequence), and there is one.  append() / prepend() return a reference
+   taken from that iterator (insert(..).item->value). *)
+Theorem C02_insert_returns_found_entry :
+  forall (K : Type) (keqb : K -> K -> bool) (hash : K -> Z),
+  (forall a b : K, keqb a b = true <-> a = b) ->
+  forall (kd : kind) (t : table K) (pos : nat) (k : K) (v : Z),
+  chains_ok K hash t -> (pos <= length (order t))%nat ->
+  snd (insert keqb hash kd t pos k v) = it_of (find_node keqb hash (fst (insert keqb hash kd t pos k v)) k) /\
+  exists (r : nat) (v' : Z),
+    snd (insert keqb hash kd t pos k v) = Some (r, k, v') /\
+    nth_error (abs K (fst (insert keqb hash kd t pos k v))) r = Some (k, v').
+Proof. exact insert_returns_found. Qed.
+Print Assumptions C02_insert_returns_found_entry.
+
+(* ... as results of the three operations of a history, in every state that satisfies the invariant: insert answers
+   with the iterator find(k) yields on the new table, append / prepend with the value of that entry (nothing for the set) *)
+Theorem C02_insert_ops_return_found_entry :
+  forall (K : Type) (keqb : K -> K -> bool) (hash : K -> Z),
+  (forall a b : K, keqb a b = true <-> a = b) ->
+  forall (kd : kind) (st : list (table K)) (x : nat) (t : table K) (pos : nat) (k : K) (v : Z),
+  state_ok K hash st -> nth_error st x = Some t -> (pos <= length (order t))%nat ->
+  let t' := fst (insert keqb hash kd t pos k v) in
+  it_of (find_node keqb hash t' k) = snd (insert keqb hash kd t pos k v) /\
+  (op_allowed kd (OInsert x pos k v) = true ->
+   step keqb hash kd st (OInsert x pos k v) = (upd x t' st, RIter (it_of (find_node keqb hash t' k)))) /\
+  (op_allowed kd (OAppend x k v) = true -> pos = length (order t) ->
+   step keqb hash kd st (OAppend x k v) = (upd x t' st, value_res kd (it_of (find_node keqb hash t' k)))) /\
+  (op_allowed kd (OPrepend x k v) = true -> pos = O ->
+   step keqb hash kd st (OPrepend x k v) = (upd x t' st, value_res kd (it_of (find_node keqb hash t' k)))).
+Proof. exact insert_ops_return_found. Qed.
+Print Assumptions C02_insert_ops_return_found_entry.
 
 Theorem C02_remove_at_refines :
   forall (K : Type) (keqb : K -> K -> bool) (hash : K -> Z),
@@ -440,6 +479,15 @@ Proof. vm_compute. repeat split; reflexivity. Qed.
 
 Example ex_present_pool : insert Z.eqb ex_hash KPool ex_t 0 20 9 = (ex_t, Some (2%nat, 20, 2)).
 Proof. vm_compute. reflexivity. Qed.
+
+(* the returned iterator / reference: prepend of the new key 60 and of the present key 20 (rank 2) to ex_t *)
+Example ex_returned_entry :
+  snd (insert Z.eqb ex_hash KMap ex_t 0 60 9) = Some (0%nat, 60, 9) /\
+  it_of (find_node Z.eqb ex_hash (fst (insert Z.eqb ex_hash KMap ex_t 0 60 9)) 60) = Some (0%nat, 60, 9) /\
+  snd (insert Z.eqb ex_hash KMap ex_t 0 20 9) = Some (2%nat, 20, 9) /\
+  it_of (find_node Z.eqb ex_hash (fst (insert Z.eqb ex_hash KMap ex_t 0 20 9)) 20) = Some (2%nat, 20, 9) /\
+  snd (step Z.eqb ex_hash KMap [ex_t] (OPrepend 0 20 9)) = RVal 9.
+Proof. vm_compute. repeat split. Qed.
 
 Example ex_new_key : abs Z (fst (insert Z.eqb ex_hash KPool ex_t 1 60 9)) = [(30, 3); (60, 77); (40, 4); (20, 2); (50, 5)].
 Proof. vm_compute. reflexivity. Qed.
